@@ -12,6 +12,7 @@
 import re
 
 from .smtlib import *
+from . import options
 from .mutator_utils import Simplification
 
 
@@ -55,6 +56,12 @@ class EliminateVariable:
                 if t in nodes.dfs(c):
                     # Avoid cycles (for example with core.ReplaceByChild)
                     continue
+                if is_var(t) and is_var(c):
+                    # Avoid cycles with core.ReplaceByVariable: substitute
+                    # a variable by a variable only in its direction
+                    inc = options.args().replace_by_variable_mode == 'inc'
+                    if inc != (c.data > t.data):
+                        continue
                 substs = {}
                 for n in nodes.dfs(input_):
                     if n == t and not is_definition_node(n):
